@@ -284,6 +284,15 @@ def run(ck):
               "the value of a received header starts after the colon and any number of blanks (none, one, several are all legal) and ends "
               "before CRLF: HeadersStep skips ':' and then the blanks it finds, not a fixed count",
               key_pred=lambda k: k == "reader:HeadersStep-splits-on-colon-space", min_instances=1)
+    ck.borrow("C04", ["C04-R2"], "C16-R12",
+              "the header block of a message is read from its first byte: whatever the parser's steps and its header collections keep "
+              "while a message is received (a resume offset, the collections themselves) is re-initialised by reset() -- what is left of "
+              "an abandoned message would make the next one on the connection lose or mangle its first headers",
+              key_pred=lambda k: "Step" in k or "Header::Collection" in k or "covers-every-step" in k, min_instances=6)
+    ck.borrow("C18", ["C18-R2"], "C16-R13",
+              "Content-Type and Accept carry media types: the literals the media-type reader matches are those its writer prints for the "
+              "same enumerators, and in the order the reader tries them none is a prefix of a later one (a sub type such as "
+              "`json-patch+json` would be read as `json` and rejected or mangled)", min_instances=3)
     ck.borrow("C09", ["C09-R5"], "C16-R7",
               "header and date writers / parsers keep no state between calls (no mutable static or thread_local local): what is written for a "
               "value does not depend on which values the thread wrote before",
